@@ -76,6 +76,10 @@ def handle (j : Json) : Json :=
       let p := mergeProb expRat b wn wc
       jObj [("p", jRat p), ("take_new", Json.bool (accept u p))]
     | _, _, _, _ => jErr "bad-args"
+  | some "accrun" =>
+    match fRatList? j "values" with
+    | some xs => jObj [("acceptance", jRat (accRun xs 0 0))]
+    | _ => jErr "bad-args"
   | some "slots" =>
     match fNat? j "n" with
     | some n =>
